@@ -503,7 +503,9 @@ func TestOrderingsAndMalformedRules(t *testing.T) {
 
 			ref := config.MechanismConfig{st.Kind: st.ID}
 			if st.BadOver {
-				ref["config"] = map[string]any{"reject_override": true}
+				// an override the mechanism refuses, or one which is not a mapping at all
+				ref["config"] = rapid.SampledFrom([]any{map[string]any{"reject_override": true}, map[string]any{"reject_override": true},
+					[]any{"header"}, "header: X-Probe", 42, true, []any{map[string]any{"header": "X-Probe"}}}).Draw(t, "badOverride")
 			}
 
 			if st.Override {
